@@ -30,7 +30,7 @@ private:
 	void update(const byte* data, int len);
 	Hash end();
 	uint32_t state[5];
-	int count[2];
+	uint32_t count[2];
 	byte buffer[64];
 };
 
